@@ -637,6 +637,13 @@ func (m *balMon) step(op balOp, o balObs) {
 			if len(op.From) != 20 || len(op.To) != 20 {
 				m.premise = false
 			}
+			if l := m.locks[string(op.From)]; l != nil && !l.done && string(op.From) == string(op.To) {
+				// the Alphabet transfers a pending lock account onto itself: a self-transfer of the
+				// whole balance deletes and re-creates the record, which drops Until/Parent (model and
+				// contract agree). The C09 theorems speak about histories in which only burns and
+				// ticks name the lock account (before_ok); observation recorded in DESIGN.md 10.2.
+				m.premise = false
+			}
 		case "lock":
 			ti := m.idx(op.To)
 			if len(op.From) != 20 || len(op.To) != 20 || string(op.From) == string(op.To) ||
